@@ -681,6 +681,29 @@ def run_r5(repo: Repo, res: Result) -> None:
             where(m, call),
             kind="dominance",
         )
+    # nothing else may suppress an edge: the only reasons are self-edge (after flattening), unknown endpoint, edge already present
+    for m, call in adders:
+        allowed = []
+        a0, a1 = (norm(a) for a in call.args[:2])
+        gname = norm(call.func.value)
+        for e, pol in conds(m, call):
+            for part in (e.values if isinstance(e, ast.BoolOp) and isinstance(e.op, ast.And) and pol else [e]):
+                t = norm(part.operand if isinstance(part, ast.UnaryOp) and isinstance(part.op, ast.Not) else part)
+                okp = (
+                    t in (f"{gname}.has_node({a0})", f"{gname}.has_node({a1})", f"{a0} in {gname}", f"{a1} in {gname}", f"{a0} == {a1}", f"{a1} == {a0}")
+                    or "already_present" in t
+                    or f"{gname}.has_edge({a0}, {a1})" in t
+                )
+                if not okp:
+                    allowed.append(t)
+        res.add(
+            "C02.R5",
+            repo.key(m, stmt_of(call)) + " [no other reason to drop an edge]",
+            not allowed,
+            "an edge between two known modules is only suppressed as a self-edge or a duplicate" if not allowed else f"the edge is additionally suppressed depending on `{'`, `'.join(allowed)}`: imports between two known modules silently disappear from the architecture",
+            where(m, call),
+            kind="dominance",
+        )
     # import edges take their endpoints from the import records only, oriented importer -> importee
     init = g.methods.get("_initialise")
     if init is None:
